@@ -36,6 +36,11 @@ type Menu struct {
 	Blocks   []string // block names offered for recv (default: all of the universe)
 	Prune    bool     // prune walks (Walk(x, true))
 	Truncate bool     // truncation as the miner does it: Walk(t) then Ledger.Truncate(t)
+	// KeyEvents adds the multiset of applied events to the canonical key: two
+	// histories are merged only if they are permutations of each other. Without
+	// it histories that reach the same stores and answers through different
+	// events are merged although hidden cache content may differ (DESIGN 2.5).
+	KeyEvents bool
 }
 
 // Oracle observes events and judges states.
@@ -73,6 +78,7 @@ type Inst struct {
 	Pruned, Truncs, Restarts int
 	last                     string
 	sawBlockFromPeer         bool
+	applied                  []string
 	pendingViol              []core.Violation
 }
 
@@ -291,6 +297,7 @@ func (i *Inst) Apply(ev string) string {
 	}
 	obs := i.apply(ev)
 	i.last = ev
+	i.applied = append(i.applied, ev)
 	if strings.HasPrefix(obs, "ERR") || strings.HasPrefix(obs, "refused") {
 		i.Failed[ev] = true
 	}
@@ -488,7 +495,13 @@ func (i *Inst) Key() string {
 		f = append(f, k)
 	}
 	sort.Strings(f)
-	return fmt.Sprintf("%x|%v|%d|%d|%s|%d", h.Sum(nil), f, i.mined, vhook.Pending(), lastKind(i.last), i.Pruned)
+	evs := ""
+	if i.Menu.KeyEvents {
+		m := append([]string(nil), i.applied...)
+		sort.Strings(m)
+		evs = strings.Join(m, ",")
+	}
+	return fmt.Sprintf("%x|%v|%d|%d|%s|%d|%s", h.Sum(nil), f, i.mined, vhook.Pending(), lastKind(i.last), i.Pruned, evs)
 }
 
 func lastKind(ev string) string {
